@@ -47,7 +47,7 @@ Proof.
 Qed.
 
 (* what may crash besides a type-directed panic: OpArrayRepeat without the
-   count guard (the tree at HEAD) *)
+   count guard (the tree before 208ef1c; with repeat_guarded = true this is c = CType) *)
 Definition crash_ok (c : crash) : Prop := c = CType \/ (repeat_guarded = false /\ c = CHost).
 
 Lemma arr_repeat_crash g r l c : arr_repeat g r l = PCrash c -> g = false /\ c = CHost.
@@ -293,7 +293,7 @@ Qed.
 
 (* The VM-safety theorem (partial: type-directed panics, CType, are not
    covered — they need the typed simulation of C16). *)
-Theorem wf_vm_safe_partial : forall (p : program), WF (info_of p) ->
+Theorem wf_vm_safe_crash_ok : forall (p : program), WF (info_of p) ->
   forall s, reachable p s ->
     (* the stack discipline: never below LocalCount *)
     plcount p <= sp_of s /\
@@ -326,4 +326,21 @@ Proof.
     destruct (vm_step p s); auto.
     destruct G as (-> & Hip & Hst). split; [exact Hip|].
     destruct INV as [[HL _] _]. unfold sp_of. rewrite HL, Hst. simpl. lia.
+Qed.
+
+Lemma crash_ok_type c : crash_ok c -> c = CType.
+Proof. intros [H|[H _]]; [exact H|discriminate H]. Qed.
+
+(* since 208ef1c (repeat_guarded = true) the only crash left is the type-directed one *)
+Theorem wf_vm_safe_partial : forall (p : program), WF (info_of p) ->
+  forall s, reachable p s ->
+    plcount p <= sp_of s /\
+    match vm_step p s with
+    | Running _ | Failed _ => True
+    | Halted s' => ip s' = N.of_nat (List.length (pcode p)) /\ sp_of s' = plcount p
+    | Crashed c => c = CType
+    end.
+Proof.
+  intros p HW s HR. destruct (wf_vm_safe_crash_ok p HW s HR) as [A B]. split; [exact A|].
+  destruct (vm_step p s); auto. apply crash_ok_type. exact B.
 Qed.
